@@ -48,8 +48,9 @@ REAL_VS_STUB = {
 ASSUMPTIONS = [
     "the exact reference is accelforge's own join with accelerations disabled, not an independent joiner: a bug "
     "shared by both paths is invisible (that is C13, not claimed)",
-    "fronts are compared as sets of objective vectors (plus reservation columns when RESOURCE_USAGE is requested), "
-    "rel_tol 1e-6; representatives among exact ties may legitimately differ between the two joins",
+    "fronts are compared as sets of NON-DOMINATED objective vectors (plus reservation columns when "
+    "RESOURCE_USAGE is requested), rel_tol 1e-6: dominated rows that survive in one table but not the other "
+    "are not a difference of fronts; representatives among exact ties may legitimately differ",
     "specs are sampled from sim/specgen.py with GlobalBuffer sizes placed around the fused working set",
     "threshold_retry cannot fire on the current tree: PmappingDataframe.update() does not carry "
     "excess_resource_tolerance, so the relaxed capacity never reaches limit_capacity (see DESIGN.md)",
@@ -119,6 +120,28 @@ def _close(a, b):
     return math.isclose(a, b, rel_tol=1e-6, abs_tol=1e-12)
 
 
+def _nondominated(points):
+    """Points not dominated by another point (minimisation in every coordinate; coordinates
+    within rel_tol 1e-6 count as equal)."""
+    def dominates(x, y):
+        if len(x) != len(y):
+            return False
+        strictly = False
+        for p, q in zip(x, y):
+            if isinstance(p, str) or isinstance(q, str):
+                if p != q:
+                    return False
+                continue
+            if _close(p, q):
+                continue
+            if p < q:
+                strictly = True
+            else:
+                return False
+        return strictly
+    return [y for y in points if not any(dominates(x, y) for x in points)]
+
+
 def compare_sets(exact, staged):
     ca, a = exact
     cb, b = staged
@@ -126,6 +149,11 @@ def compare_sets(exact, staged):
         # reservation columns can differ when a memory is untracked; compare on the common prefix of
         # Total columns only if RESOURCE_USAGE is not requested (then there are none)
         return f"objective columns differ: exact {ca} staged {cb}"
+    # The property is about the Pareto front.  Both joins can return tables that still hold
+    # dominated rows (same energy and latency, larger reservation; seen with RESOURCE_USAGE), and
+    # the optimality filter of the staged join is *designed* to drop rows dominated by an already
+    # found solution.  Reduce both tables to their non-dominated points first.
+    a, b = _nondominated(a), _nondominated(b)
     # Mutual coverage within the stated tolerance: the staged table can hold several rows whose
     # objective vectors differ only by float32/float64 rounding (~1e-8 relative); those are one
     # point of the front, so the comparison is between sets of points, not row counts.
